@@ -2,7 +2,8 @@
 (* Trace validation (impl -> spec) for EngineCore.  One line per call of      *)
 (* Engine::process (through process_with_audit):                              *)
 (*   {"a":"Reset","post":state,"seq":n}                                       *)
-(*   {"a":"Step","ev":event,"env":env,"tick":tick,"dl":[[..],[..]],"post":..} *)
+(*   {"a":"Step","ev":event,"env":env,"tick":tick,"dl":[[..],[..]],           *)
+(*    "disc":[exchange of each on-disconnect call],"post":..}                 *)
 (* The step the specification computes from (state, event, env) is compared   *)
 (* component by component with what the implementation did; the components    *)
 (* that differ and the step properties (C03/C19/C14/C10) that fail on the     *)
@@ -55,6 +56,18 @@ Diff(r, post, t, d, rawT, rawD) ==
   \cup (IF t.outputs # r.tick.outputs \/ \E j \in 1..Len(rawT.outputs) : ~NoDup(rawT.outputs[j]) THEN {"tick_outputs"} ELSE {})
   \cup (IF d # r.dl \/ \E e \in 1..NEX : Len(rawD[e]) # r.dln[e] THEN {"dl"} ELSE {})
 
+\* C14: each disconnect notice invokes the on-disconnect strategy exactly once, for that exchange
+HookTags(ev, disc) ==
+  IF disc = (IF ev.a \in {"MarketReconnecting", "AccountReconnecting"} THEN <<ev.ex>> ELSE <<>>) THEN {} ELSE {"on_disconnect_calls"}
+
+\* number of deliveries = number of requests reported sent (multiset side of SentDelivered)
+RECURSIVE SumLen(_, _)
+SumLen(f, n) == IF n = 0 THEN 0 ELSE f[n] + SumLen(f, n - 1)
+CountOK(rawT, rawD) ==
+  rawT.errs > 0 \/
+  SumLen([e \in 1..NEX |-> Len(rawD[e])], NEX)
+    = SumLen([j \in 1..Len(rawT.outputs) |-> Len(rawT.outputs[j].sentO) + Len(rawT.outputs[j].sentC)], Len(rawT.outputs))
+
 \* step properties evaluated on the observed step
 PropTags ==
      (IF SentDeliveredA THEN {} ELSE {"P:SentDelivered"})
@@ -75,7 +88,8 @@ TStep == /\ Rec[l].a = "Step"
                /\ dl' = d
                /\ seq' = t.seq + 1
                /\ last' = [ev |-> ev, env |-> env]
-               /\ LET tags == Diff(r, post, t, d, Rec[l].tick, Rec[l].dl) \cup PropTags
+               /\ LET tags == Diff(r, post, t, d, Rec[l].tick, Rec[l].dl) \cup PropTags \cup HookTags(ev, Rec[l].disc)
+                              \cup (IF CountOK(Rec[l].tick, Rec[l].dl) THEN {} ELSE {"P:SentDelivered"})
                   IN bad' = IF tags = {} THEN bad ELSE Append(bad, <<l, tags>>)
 
 TNext == /\ l <= Len(Rec)
